@@ -421,6 +421,23 @@ func (w *c01World) key() string {
 		str(r.Seq)
 		num(ab)
 		num(ao)
+		// spare capacity and capacity shared with an earlier row: an in-place append reads both
+		// (a clone carved out of one backing array has other futures than one row per allocation)
+		spare, over := 0, -1
+		if r.Cap > len(r.Seq) {
+			spare = 1
+		}
+		if r.Buf != 0 {
+			for j := 0; j < i; j++ {
+				q := st.Rows[j]
+				if q.Buf != 0 && q.Buf != r.Buf && r.Buf < q.Buf+uintptr(q.Cap) && q.Buf < r.Buf+uintptr(r.Cap) {
+					over = j
+					break
+				}
+			}
+		}
+		num(spare)
+		num(over)
 	}
 	b = append(b, '|')
 	for _, e := range st.Index {
@@ -659,7 +676,8 @@ func c01Ops() []c01Op {
 	for _, rn := range []struct {
 		n string
 		m map[string]string
-	}{{"a>c", map[string]string{"a": "c"}}, {"a>b", map[string]string{"a": "b"}}, {"swapab", map[string]string{"a": "b", "b": "a"}}, {"none", map[string]string{"zz": "y"}}, {"c>a", map[string]string{"c": "a"}}} {
+	}{{"a>c", map[string]string{"a": "c"}}, {"a>b", map[string]string{"a": "b"}}, {"swapab", map[string]string{"a": "b", "b": "a"}}, {"none", map[string]string{"zz": "y"}}, {"c>a", map[string]string{"c": "a"}},
+		{"chain", map[string]string{"a": "b", "b": "c"}}, {"a>a_0001", map[string]string{"a": "a_0001", "a_0001": "a_0002"}}} {
 		rn := rn
 		add("rename:"+rn.n, true, true, func(w *c01World) {
 			w.call(func() { w.real.Rename(rn.m) })
@@ -671,7 +689,7 @@ func c01Ops() []c01Op {
 			w.m.CallerDup = w.m.CallerDup || w.m.hasDup()
 		})
 	}
-	for _, rr := range []struct{ n, re, rep string }{{"^a>z", "^a", "z"}, {"[ab]>q", "^[ab]$", "q"}, {"bad", "(", "x"}} {
+	for _, rr := range []struct{ n, re, rep string }{{"^a>z", "^a", "z"}, {"[ab]>q", "^[ab]$", "q"}, {"bad", "(", "x"}, {"$>_0001", "$", "_0001"}, {"^a$>b;b>bb", "^(a|b)$", "${1}b"}} {
 		rr := rr
 		add("renameRegexp:"+rr.n, true, true, func(w *c01World) {
 			nm := map[string]string{}
@@ -1382,7 +1400,7 @@ var c01CoreOps = map[string]bool{
 	"add:a:same": true, "add:b:dupseq": true, "add:c:long": true, "add:a_0001:same": true,
 	"append:shareAll": true, "append:disjoint": true, "append:wrongLen": true,
 	"concat:share1": true, "concat:disjoint": true, "concat:empty": true,
-	"rename:a>c": true, "rename:a>b": true, "rename:swapab": true, "renameRegexp:^a>z": true,
+	"rename:a>c": true, "rename:a>b": true, "rename:swapab": true, "rename:chain": true, "renameRegexp:^a>z": true, "renameRegexp:$>_0001": true,
 	"appendId:_x:right": true, "cleanNames": true, "trimNames:3": true, "trimNamesAuto": true,
 	"sort": true, "shuffle": true, "sample:1": true,
 	"filterLength:L+1:-1": true, "filterLength:-1:L-1": true, "dedup:false": true,
@@ -1707,7 +1725,7 @@ func init() {
 			"from %d initial containers (empty, 1x1, 2x2, mixed case, 3x6 coding, one column, auto-renamed duplicate name, names with special characters, protein, ragged sequence set, empty set); states de-duplicated on the private representation (rows, name index, cached length, alphabet, policy, buffer aliasing); "+
 			"after EVERY transition: equality with a list-of-(name,sequence) reference model + rectangularity + index/name/iteration lookups agree + names distinct unless caller-made. states = canonical states (distinct within a shard), transitions = real operation calls checked, distinct_nontrivial = distinct (initial container, canonical state) reached by a successful state-changing operation.", len(c01OpList), len(c01Inits)),
 		Assumptions: []string{
-			"state key = complete private state of seqbag/align (dumped by an overlay-added file of package align) — public methods read nothing else, so equal keys have equal futures",
+			"state key = complete private state of seqbag/align (dumped by an overlay-added file of package align), including for every row whether its buffer has spare capacity and whether that capacity overlaps an earlier row's (an in-place append reads both) — public methods read nothing else, so equal keys have equal futures",
 			"operations that report an error are not 'successful operations': the state after them is checked only where the statement demands 'unchanged' (wrong-length insertion) and is not expanded",
 			"operations pairing rows by name (Concat, Sort, by-name lookups, extraction into a new object) are not compared while caller-made duplicate names exist",
 			"derived objects (SubAlign, Clone, Sample …) get their duplicate-name policy set explicitly after creation (inheritance is undocumented)",
